@@ -109,8 +109,9 @@ def survey_3d(case, variant):
     return sv
 
 
-def run(ctx, cases, algs=(None,), variants=(0, 1, 2), heights=False, spatial=False):
-    vlib.build("plain", ["gama-local"])
+def run(ctx, cases, algs=(None,), variants=(0, 1, 2), heights=False, spatial=False, kind="plain"):
+    """kind = "asan": the same inputs through the ASan / UBSan build (memory errors and undefined behaviour in the approximate-coordinate code)"""
+    vlib.build(kind, ["gama-local"])
     jobs, meta = [], []
     for ci, c in enumerate(cases):
         vs = variants
@@ -120,7 +121,7 @@ def run(ctx, cases, algs=(None,), variants=(0, 1, 2), heights=False, spatial=Fal
             sv = survey_3d(c, v) if spatial else survey_h(c, v) if heights else survey(c, v)
             for alg in algs:
                 args = sv.cli() + (["--algorithm", alg] if alg else [])
-                jobs.append({"gkf": sv.gkf(), "args": args, "want": ["xml"]})
+                jobs.append({"gkf": sv.gkf(), "args": args, "want": ["xml"], "kind": kind})
                 meta.append((ci, v, alg, sv))
     runs = gl.run_many(ctx, jobs)
     st = {"runs": len(jobs), "adjusted": 0, "points_checked": 0, "by_construction": {}}
